@@ -305,8 +305,14 @@ Seeds   == IF NSeeds = 1 THEN {"s0"} ELSE {"s0", "s1"}
 NoClass == Cl(<<>>, "na", "finite", "first", "f64", 0)
 Limit   == IF mode = "single" THEN 1 ELSE MaxCalls
 
+\* the quick tier explores histories for one representative of every aggregator class and parameter
+\* style (single calls: all kinds)
+QuickHistKinds == {"Mean", "Sum", "MGDA", "PCGrad", "CAGrad", "IMTLG", "UPGrad", "DualProj", "AlignedMTL",
+                   "ConFIG", "GradDrop", "Random", "Constant3d", "UPGradP3d", "ConFIGP3d", "GradDropL3d",
+                   "TM1", "Krum0_1"}
 Init == /\ kind \in Kinds
         /\ mode \in {"single", "hist"}
+        /\ (mode = "hist" => (HistLevel >= 2 \/ kind.name \in QuickHistKinds))
         /\ rng = [seed |-> "s0", stream |-> <<>>, calls |-> 0]     \* the harness seeds before constructing
         /\ steps = <<>> /\ ncalls = 0 /\ inputsIntact = TRUE
 
@@ -330,6 +336,7 @@ Call(c) == /\ ncalls < Limit
            /\ UNCHANGED <<kind, mode, inputsIntact>>       \* in particular: the input is not written
 
 Seed(s) == /\ mode = "hist" /\ Randomised(kind) /\ ncalls < Limit
+           /\ (HistLevel >= 2 \/ ncalls = Limit - 1)        \* quick tier: re-seed only before the last call
            /\ (IF steps = <<>> THEN TRUE ELSE steps[Len(steps)].op = "call")   \* no two seeds in a row
            /\ steps' = Append(steps, [op |-> "seed", s |-> s, c |-> NoClass,
                                       rngBefore |-> RngKey(kind, rng), expect |-> "-", impl |-> "-"])
